@@ -55,7 +55,13 @@ func H_C17() {
 	// idempotence
 	out2 := formatAndPrint(b.Root)
 	if len(out2) != len(out1) {
-		Fail("C17:idempotent", stmtKindAtFirstDiff(b.Root, out1, out2))
+		if c17Family(ref.Root) == htmlFamily {
+			// same defect as above: where HTML was wrapped into PHP mode and the result
+			// happens to parse (the HTML starts with '#': a comment), the second pass differs
+			Fail("C17:idempotent", htmlFamily)
+		} else {
+			Fail("C17:idempotent", stmtKindAtFirstDiff(b.Root, out1, out2))
+		}
 	} else {
 		Assert("C17:idempotent|"+firstNodeKinds(ref.Root), BytesEq(out1, out2))
 	}
